@@ -1,6 +1,9 @@
 (** Props/C20.v — C20: audio sample helpers are lossless on 16-bit PCM and
     exact about lengths.  Only statements, [exact], and [Print Assumptions]. *)
-From Coq Require Import ZArith List Bool Reals PrimFloat FloatOps SpecFloat.
+From Coq Require Import ZArith List Bool Reals SpecFloat.
+From Coq Require PrimFloat.
+(* PrimFloat is deliberately not imported: Print Assumptions then prints the primitives
+   with their qualified names (PrimFloat.mul, ...), which is what the engine's allow-list matches. *)
 From Flocq Require Import Core.
 From NS Require Import Base.FloatBridge Model.Audio Proofs.AudioPcm Proofs.Audio Proofs.AudioFloat.
 Import ListNotations.
@@ -54,7 +57,7 @@ Print Assumptions C20_crop_bounds_total.
 (** crop_samples raises only OverflowError, exactly when a product is infinite *)
 Theorem C20_crop_error : forall (A : Type) (x : list A) rate b t c,
   crop x rate b t = Err c ->
-  c = E_OVERFLOW /\ (finb (b * f_of_Z rate)%float = false \/ finb (t * f_of_Z rate)%float = false).
+  c = E_OVERFLOW /\ (finb (PrimFloat.mul b (f_of_Z rate)) = false \/ finb (PrimFloat.mul t (f_of_Z rate)) = false).
 Proof. exact @crop_error. Qed.
 Print Assumptions C20_crop_error.
 
@@ -65,7 +68,7 @@ Print Assumptions C20_crop_error.
 Theorem C20_repeat_spec : forall (A : Type) (x : list A) rate d,
   len_ok (zlen x) = true -> rate_ok rate = true -> dur_ok d = true ->
   exists out, repeat_to_duration x rate d = Ok out /\
-    zlen out = trunc (d * f_of_Z rate)%float /\
+    zlen out = trunc (PrimFloat.mul d (f_of_Z rate)) /\
     forall i, 0 <= i < zlen out -> znth out i = znth x (i mod zlen x).
 Proof. exact @repeat_spec. Qed.
 Print Assumptions C20_repeat_spec.
@@ -73,15 +76,15 @@ Print Assumptions C20_repeat_spec.
 (** the float premise behind it: the concatenated copies cover the request *)
 Theorem C20_repeat_copies_cover_request : forall len rate d,
   len_ok len = true -> rate_ok rate = true -> dur_ok d = true ->
-  exists k n, num_repeats len rate d = Ok k /\ crop_bounds rate 0%float d = Ok (0, n) /\
-              0 <= n <= k * len /\ n = trunc (d * f_of_Z rate)%float.
+  exists k n, num_repeats len rate d = Ok k /\ crop_bounds rate PrimFloat.zero d = Ok (0, n) /\
+              0 <= n <= k * len /\ n = trunc (PrimFloat.mul d (f_of_Z rate)).
 Proof. exact repeat_lengths. Qed.
 Print Assumptions C20_repeat_copies_cover_request.
 
 (** ... and for any inputs whatever, IF the copies cover the request the result is right *)
 Theorem C20_repeat_spec_given_lengths : forall (A : Type) (x : list A) rate d k n,
   0 < zlen x ->
-  num_repeats (zlen x) rate d = Ok k -> crop_bounds rate 0%float d = Ok (0, n) ->
+  num_repeats (zlen x) rate d = Ok k -> crop_bounds rate PrimFloat.zero d = Ok (0, n) ->
   0 <= n <= k * zlen x ->
   exists out, repeat_to_duration x rate d = Ok out /\
     zlen out = n /\ forall i, 0 <= i < n -> znth out i = znth x (i mod zlen x).
@@ -90,25 +93,25 @@ Print Assumptions C20_repeat_spec_given_lengths.
 
 (** without the size bound the premise is false (needs > 2^52 samples) *)
 Theorem C20_repeat_premise_unbounded_refuted :
-  exists len rate d k n, len_ok len = true /\ rate = 8000 /\ finb d = true /\ PrimFloat.leb 0 d = true /\
-    num_repeats len rate d = Ok k /\ crop_bounds rate 0%float d = Ok (0, n) /\ k * len < n.
+  exists (len rate : Z) d (k n : Z), len_ok len = true /\ rate = 8000 /\ finb d = true /\ PrimFloat.leb PrimFloat.zero d = true /\
+    num_repeats len rate d = Ok k /\ crop_bounds rate PrimFloat.zero d = Ok (0, n) /\ k * len < n.
 Proof. exact repeat_premise_unbounded_refuted. Qed.
 Print Assumptions C20_repeat_premise_unbounded_refuted.
 
 (** which inputs repeat_samples_to_duration rejects, and with what *)
 Theorem C20_repeat_error : forall (A : Type) (x : list A) rate d c,
   repeat_to_duration x rate d = Err c ->
-  (c = E_ZERODIV /\ (rate = 0 \/ PrimFloat.eqb (seq_duration (zlen x) rate) 0%float = true)) \/
-  (c = E_OVERFLOW /\ (finb (d / seq_duration (zlen x) rate)%float = false \/
-                      finb (0 * f_of_Z rate)%float = false \/
-                      finb (d * f_of_Z rate)%float = false)) \/
+  (c = E_ZERODIV /\ (rate = 0 \/ PrimFloat.eqb (seq_duration (zlen x) rate) PrimFloat.zero = true)) \/
+  (c = E_OVERFLOW /\ (finb (PrimFloat.div d (seq_duration (zlen x) rate)) = false \/
+                      finb (PrimFloat.mul PrimFloat.zero (f_of_Z rate)) = false \/
+                      finb (PrimFloat.mul d (f_of_Z rate)) = false)) \/
   (c = E_CONCAT_EMPTY /\ exists k, num_repeats (zlen x) rate d = Ok k /\ k < 0).
 Proof. exact @repeat_error. Qed.
 Print Assumptions C20_repeat_error.
 
 (** the code before C20-fix-1 raises on duration 0 where 0 samples are requested *)
 Theorem C20_repeat_zero_unfixed_refuted :
-  exists (x : list Z) rate d, x <> [] /\ crop_bounds rate 0%float d = Ok (0, 0) /\
+  exists (x : list Z) rate d, x <> [] /\ crop_bounds rate PrimFloat.zero d = Ok (0, 0) /\
     repeat_to_duration_unfixed x rate d = Err E_CONCAT_EMPTY /\
     repeat_to_duration x rate d = Ok [].
 Proof. exact repeat_zero_unfixed_refuted. Qed.
